@@ -57,6 +57,23 @@ template <class... V> struct checks {
     (void)(v == w); (void)(v != w); av c(v); c = w; (void)c.dimensions(); (void)c.num_channels(); (void)c.width(); (void)c.height(); (void)c.size();
   }
 };
+// transformations only (the list holds a view that is not writable and whose transposed type differs from its own type:
+// an image_view over a virtual_2d_locator), and the deprecated spellings of the colour-converting factory
+template <class... V> struct tchecks {
+  using av = any_image_view<V...>;
+  template <template <class> class M> using map = any_image_view<typename M<V>::type...>;
+  static void run(av const& v) {
+    static_assert(std::is_same<decltype(transposed_view(v)), map<dynamic_xy_step_transposed_type>>::value, "transposed result type");
+    static_assert(std::is_same<decltype(rotated90cw_view(v)), map<dynamic_xy_step_transposed_type>>::value, "rotated90cw result type");
+    static_assert(std::is_same<decltype(rotated90ccw_view(v)), map<dynamic_xy_step_transposed_type>>::value, "rotated90ccw result type");
+    static_assert(std::is_same<decltype(rotated180_view(v)), map<dynamic_xy_step_type>>::value, "rotated180 result type");
+    static_assert(std::is_same<decltype(flipped_up_down_view(v)), map<dynamic_y_step_type>>::value, "flipped_up_down result type");
+    static_assert(std::is_same<decltype(subsampled_view(v, 2, 2)), map<dynamic_xy_step_type>>::value, "subsampled result type");
+    (void)transposed_view(v).dimensions(); (void)rotated90cw_view(v).size(); (void)rotated90ccw_view(v).width(); (void)rotated180_view(v).width();
+    (void)flipped_up_down_view(v).width(); (void)flipped_left_right_view(v).width(); (void)subsampled_view(v, 2, 2).width(); (void)subimage_view(v, 0, 0, 1, 1).width();
+    (void)any_color_converted_view<gray8_pixel_t>(v).width(); (void)any_color_converted_view<gray8_pixel_t>(v, default_color_converter()).width();
+  }
+};
 template <class... I> struct ichecks {
   using ai = any_image<I...>;
   static void run(ai& a, ai const& b) {
@@ -74,6 +91,7 @@ void inst(any_image_view<gray8_view_t, rgb8_view_t, rgb8_planar_view_t, cmyk16_v
   checks<rgb8_view_t, k_xystep, rgb8_planar_view_t, bgr8_view_t>::run(v2, w2, s);
   ichecks<gray8_image_t, rgb8_image_t, rgb8_planar_image_t, cmyk16_image_t>::run(a, b);
 }
+void inst2(any_image_view<k_virt, rgb8_view_t> const& v) { tchecks<k_virt, rgb8_view_t>::run(v); }
 '''
 
 ALGOS = {"copy_pixels": "copy_pixels_fn", "equal_pixels": "equal_pixels_fn", "copy_and_convert_pixels": "copy_and_convert_pixels_fn",
